@@ -1,9 +1,14 @@
 import BppModel.Dag
 import BppModel.TreeRef
 import BppProofs.Lemmas.GraphRefine
+import BppProofs.Lemmas.GraphOrient
+import BppProofs.Lemmas.TreeSwitch
 /-! Helper lemmas for C15 (DAG container, `BppModel/Dag.lean`): the notification queue is not read by
 `isDA` / `nbFatherless`; the loop of `isDA` terminates within its fuel on a consistent graph; it
-decides acyclicity.  Core Lean only (the transitive closure `TG` is defined here). -/
+decides acyclicity; the invariant of all histories (`Inv`), re-rooting included (`propagate_ind`,
+`rootAt_ind`: whatever a `switchNodes` call keeps is kept by `propagateDirection_` / `orientate` / `rootAt`,
+succeeding or raising half way); `rootAt` keeps the nodes and the undirected edges (`rootAt_shape`); nothing
+is ever left pending (`pending_run`).  Core Lean only (the transitive closure `TG` is defined here). -/
 set_option linter.unusedSimpArgs false
 set_option linter.unusedVariables false
 set_option linter.unusedSectionVars false
@@ -571,6 +576,135 @@ theorem dir_setRoot (g : G) (n : Nat) : (setRoot n g).All (fun g' => g'.directed
 
 end G
 
+/-! ### `switchNodes` and `orientate`: what they keep -/
+
+theorem GOut.All.mono {α : Type} {P Q : G → Prop} {r : GOut α} (h : r.All P) (hPQ : ∀ g, P g → Q g) : r.All Q := by
+  cases r with
+  | ok a g' => exact hPQ _ h
+  | exc g' => exact hPQ _ h
+
+/-- what `switchNodes` (succeeding or raising) and hence `orientate` on a directed graph keep: the
+nodes, the undirected edge set with its edge ids, and the root -/
+structure SwitchKept (g g' : G) : Prop where
+  keys : AL.keys g'.nodes = AL.keys g.nodes
+  uedges : uedges g' = uedges g
+  root : g'.root = g.root
+
+theorem SwitchKept.refl (g : G) : SwitchKept g g := ⟨rfl, rfl, rfl⟩
+
+theorem SwitchKept.trans {g1 g2 g3 : G} (h12 : SwitchKept g1 g2) (h23 : SwitchKept g2 g3) : SwitchKept g1 g3 :=
+  ⟨h23.keys.trans h12.keys, h23.uedges.trans h12.uedges, h23.root.trans h12.root⟩
+
+theorem SwitchKept.setPending {g g' : G} (h : SwitchKept g g') (p : List Event) : SwitchKept g { g' with pending := p } :=
+  ⟨h.keys, h.uedges, h.root⟩
+
+namespace G
+
+theorem switchFrom_ok {g g' : G} {f s e : Nat} {u : Unit} (h : switchFrom f s e g = .ok u g') :
+    g' = { g with nodes := switchedNodes f s e g.nodes, edges := AL.set e (s, f) g.edges } := by
+  unfold switchFrom at h
+  split at h
+  · cases h
+  · split at h
+    · cases h
+    · injection h with _ h; exact h.symm
+
+/-- a successful `switchNodes`: the graph is directed and one relation `f -> s` was turned round -/
+theorem switchNodes_ok {g g' : G} {a b : Nat} {u : Unit} (h : switchNodes a b g = .ok u g') :
+    g.directed = true ∧ ∃ f s e, g.outE f s = some e ∧
+      g' = { g with nodes := switchedNodes f s e g.nodes, edges := AL.set e (s, f) g.edges } := by
+  unfold switchNodes at h
+  split at h
+  · cases h
+  · rename_i hd
+    have hd' : g.directed = true := by simpa using hd
+    split at h
+    · cases h
+    · split at h
+      · rename_i e he; exact ⟨hd', a, b, e, he, switchFrom_ok h⟩
+      · split at h
+        · rename_i e he; exact ⟨hd', b, a, e, he, switchFrom_ok h⟩
+        · cases h
+
+theorem dir_switchNodes (g : G) (a b : Nat) : (switchNodes a b g).All (fun g' => g'.directed = g.directed) := by
+  rcases hr : switchNodes a b g with ⟨u, g'⟩ | g'
+  · obtain ⟨_, f, s, e, _, rfl⟩ := switchNodes_ok hr; rfl
+  · rw [switchNodes_exc hr]; exact rfl
+
+/-- `switchNodes` on a consistent graph, succeeding or raising, keeps the nodes, the undirected
+edges with their ids (self loops included) and the root -/
+theorem switchNodes_kept {g : G} (hc : Consistent g) (a b : Nat) : (switchNodes a b g).All (SwitchKept g) := by
+  rcases hr : switchNodes a b g with ⟨u, g'⟩ | g'
+  · obtain ⟨hd, f, s, e, hO, rfl⟩ := switchNodes_ok hr
+    refine ⟨keys_switchedNodes f s e g.nodes, ?_, rfl⟩
+    have hE : find e g.edges = some (f, s) := by
+      rcases hc.views.out_edge f s e hO with h1 | ⟨h2, _⟩
+      · exact h1
+      · rw [hd] at h2; cases h2
+    exact uedges_set hc.sorted.edges hE
+  · rw [switchNodes_exc hr]; exact SwitchKept.refl g
+
+/-- whatever `orientate` does, the graph itself only undergoes `switchNodes` calls after `makeDirected` -/
+theorem orientSwitches_ind (P : G → Prop) (hP : ∀ g a b, P g → (switchNodes a b g).All P) (nb : Nat) (ins : List Nat) :
+    ∀ r : OrientRun, P r.g → P (orientSwitches nb ins r).g := by
+  induction ins with
+  | nil => intro r h; exact h
+  | cons i rest ih =>
+    intro r h
+    unfold orientSwitches
+    have h1 := hP r.g nb i h
+    rcases hr : switchNodes nb i r.g with ⟨u, g'⟩ | g' <;> rw [hr] at h1
+    · exact ih _ h1
+    · exact h1
+
+theorem orientLoop_ind (P : G → Prop) (hP : ∀ g a b, P g → (switchNodes a b g).All P) (fuel : Nat) :
+    ∀ (r : OrientRun) (gg : G) (next : List Nat), P r.g → P (orientLoop fuel r gg next).g := by
+  induction fuel with
+  | zero => intro r gg next h; exact h
+  | succ fuel ih =>
+    intro r gg next h
+    unfold orientLoop
+    split
+    · exact h
+    · split
+      · exact h
+      · split
+        · exact h
+        · have h1 : ∀ nb ins, P (orientSwitches nb ins r).g := fun nb ins => orientSwitches_ind P hP nb ins r h
+          simp only
+          split
+          · exact h1 _ _
+          · split
+            · exact ih _ _ _ (h1 _ _)
+            · exact h1 _ _
+
+theorem orientate_ind (P : G → Prop) (hP : ∀ g a b, P g → (switchNodes a b g).All P) (g : G) (h : P g.makeDirected) :
+    (orientate g).All P := by
+  have : P g.orientRun.g := by unfold orientRun; exact orientLoop_ind P hP _ _ _ _ h
+  unfold orientate
+  simp only
+  split <;> exact this
+
+theorem dir_orientate {g : G} (hd : g.directed = true) : (orientate g).All (fun g' => g'.directed = g.directed) := by
+  apply orientate_ind
+  · intro g1 a b h
+    exact (dir_switchNodes g1 a b).mono (fun g' h' => h'.trans h)
+  · rw [makeDirected_already hd]
+
+/-- `orientate` on a consistent directed graph, succeeding or raising half way -/
+theorem orientate_kept {g : G} (hc : Consistent g) (hd : g.directed = true) :
+    (orientate g).All (fun g' => Consistent g' ∧ SwitchKept g g') := by
+  apply orientate_ind
+  · intro g1 a b h
+    have h1 := switchNodes_consistent h.1 a b
+    have h2 := switchNodes_kept h.1 a b
+    rcases hr : switchNodes a b g1 with ⟨u, g'⟩ | g' <;> rw [hr] at h1 h2
+    · exact ⟨h1, h.2.trans h2⟩
+    · exact ⟨h1, h.2.trans h2⟩
+  · rw [makeDirected_already hd]; exact ⟨hc, SwitchKept.refl g⟩
+
+end G
+
 namespace D
 
 /-- the caches never lie: a set `isValid_` means `isDA` answers true on the graph as it is now, a set
@@ -707,6 +841,165 @@ theorem getBelow_snd (e : Bool) (d : D) (n : Nat) : (d.getBelow e n).2 = d.isVal
   simp only
   split <;> rfl
 
+/-! ### re-rooting: `propagateDirection_`, `orientate`, `rootAt` -/
+
+theorem lift_g {α : Type} (d : D) (r : GOut α) : (d.lift r).2.g = { r.state with pending := [] } := by
+  cases r <;> rfl
+
+theorem isValid_g (d : D) : d.isValid.2.g = d.g := by
+  unfold isValid
+  split
+  · rfl
+  · rcases isDA d.g with b | _ | _ | _ <;> rfl
+
+theorem isRooted_g (d : D) : d.isRooted.2.g = d.g := by
+  unfold isRooted
+  split
+  · rfl
+  · split <;> rfl
+
+theorem andThen_ind {α β : Type} (P : D → Prop) (r : GOut α × D) (f : α → D → GOut β × D) (h : P r.2)
+    (hf : ∀ a d', P d' → P (f a d').2) : P (andThen r f).2 := by
+  unfold andThen
+  split
+  · exact hf _ _ h
+  · exact h
+
+theorem foldl_ind {α β : Type} (I : α → Prop) (step : α → β → α) (hs : ∀ a b, I a → I (step a b)) :
+    ∀ (l : List β) (a : α), I a → I (l.foldl step a) := by
+  intro l
+  induction l with
+  | nil => intro a h; exact h
+  | cons b rest ih => intro a h; exact ih _ (hs a b h)
+
+/-- whatever holds of the container and is kept by a `switchNodes` call (succeeding or raising, with its
+`topologyHasChanged_`) holds after `propagateDirection_`, whether it succeeded or raised half way -/
+theorem propagate_ind (P : D → Prop) (hP : ∀ d a b, P d → P (d.lift (d.g.switchNodes a b)).2) :
+    ∀ (fuel : Nat) (d : D) (n : Nat) (r : GOut Unit × D), P d → propagate fuel d n = .ok r → P r.2 := by
+  intro fuel
+  induction fuel with
+  | zero => intro d n r _ hr; simp only [propagate] at hr; cases hr
+  | succ fuel ih =>
+    intro d n r h hr
+    simp only [propagate] at hr
+    split at hr
+    · injection hr with hr; subst hr; exact h
+    · rename_i fats _
+      -- the first loop: the recursive calls, each on the container the former ones left
+      have h1 := foldl_ind (fun acc : TRes (GOut Unit × D) => ∀ p, acc = .ok p → P p.2)
+        (fun acc f => match acc with
+          | .ok (.ok _ _, d') => propagate fuel d' f
+          | other => other)
+        (by
+          intro acc f hacc p hp
+          split at hp
+          · exact ih _ _ _ (hacc _ rfl) hp
+          · exact hacc _ hp)
+        fats (.ok (.ok () d.g, d)) (by intro p hp; injection hp with hp; subst hp; exact h)
+      split at hr
+      · rename_i u g1 d1 heq
+        have hd1 : P d1 := h1 _ heq
+        injection hr with hr
+        subst hr
+        -- the second loop: one `switchNodes` per father
+        exact foldl_ind (fun acc : GOut Unit × D => P acc.2) _
+          (fun acc f hacc => andThen_ind P acc _ hacc (fun _ d' h' => hP d' f n h')) fats _ hd1
+      · exact h1 _ hr
+
+/-- `rootAt` once its `setRoot` has succeeded -/
+def rootAtRest (d1 : D) (n : Nat) : TRes (GOut Unit × D) :=
+  let (r, d2) := d1.isRooted
+  if r then
+    let (v, d3) := d2.isValid
+    match v with
+    | .ok true => propagate (propagateFuel d3.g) d3 n
+    | .ok false => .ok d3.orient
+    | .exc => .ok (.exc d3.g, d3)
+    | .fuel => .fuel
+    | .ub => .ub
+  else .ok d2.orient
+
+theorem rootAt_eq (d : D) (n : Nat) : d.rootAt n =
+    match d.setRoot n with
+    | (.exc g, d1) => .ok (.exc g, d1)
+    | (.ok _ _, d1) => rootAtRest d1 n := by
+  unfold rootAt rootAtRest
+  rfl
+
+theorem rootAtRest_ind (P : D → Prop) (hsw : ∀ d a b, P d → P (d.lift (d.g.switchNodes a b)).2)
+    (hR : ∀ d, P d → P d.isRooted.2) (hV : ∀ d, P d → P d.isValid.2) (hO : ∀ d, P d → P d.orient.2)
+    (d1 : D) (n : Nat) (r : GOut Unit × D) (h : P d1) (hr : rootAtRest d1 n = .ok r) : P r.2 := by
+  unfold rootAtRest at hr
+  have h2 := hR d1 h
+  rcases hq : d1.isRooted with ⟨b, d2⟩
+  rw [hq] at hr h2
+  simp only at hr h2
+  split at hr
+  · have h3 := hV d2 h2
+    rcases hv : d2.isValid with ⟨v, d3⟩
+    rw [hv] at hr h3
+    simp only at hr h3
+    split at hr
+    · exact propagate_ind P hsw _ _ _ _ h3 hr
+    · injection hr with hr; subst hr; exact hO _ h3
+    · injection hr with hr; subst hr; exact h3
+    · cases hr
+    · cases hr
+  · injection hr with hr; subst hr; exact hO _ h2
+
+/-- whatever holds of the container and is kept by `setRoot`, the two cache-writing queries, a
+`switchNodes` call and `orientate()` holds after `rootAt`, succeeding or raising -/
+theorem rootAt_ind (P : D → Prop) (hsw : ∀ d a b, P d → P (d.lift (d.g.switchNodes a b)).2)
+    (hR : ∀ d, P d → P d.isRooted.2) (hV : ∀ d, P d → P d.isValid.2) (hO : ∀ d, P d → P d.orient.2)
+    (hS : ∀ d n, P d → P (d.setRoot n).2)
+    (d : D) (n : Nat) (r : GOut Unit × D) (h : P d) (hr : d.rootAt n = .ok r) : P r.2 := by
+  rw [rootAt_eq] at hr
+  have hs := hS d n h
+  rcases hq : d.setRoot n with ⟨o, d1⟩
+  rw [hq] at hr hs
+  cases o with
+  | ok u g1 => exact rootAtRest_ind P hsw hR hV hO d1 n r hs hr
+  | exc g1 => simp only at hr; injection hr with hr; subst hr; exact hs
+
+theorem inv_switch (d : D) (h : Inv d) (a b : Nat) : Inv (d.lift (d.g.switchNodes a b)).2 :=
+  inv_lift d h _ (ginv_of h.1 (G.switchNodes_consistent h.1.1 a b) (G.dir_switchNodes _ a b))
+
+/-- the container after `orient`: either some `switchNodes` succeeded — the graph `orientate` left, both flags
+reset — or the container as it was (queue emptied) -/
+theorem orient_cases (d : D) :
+    d.orient.2 = { g := { d.g.orientRun.g with pending := [] }, valid := false, rooted := false } ∨
+    d.orient.2 = { d with g := { d.g with pending := [] } } := by
+  unfold orient
+  simp only
+  split
+  · exact .inl rfl
+  · exact .inr rfl
+
+theorem orient_pending (d : D) : d.orient.2.g.pending = [] := by
+  rcases orient_cases d with h | h <;> rw [h]
+
+/-- what holds of the state `orientate` leaves in both outcomes holds of the graph of the run -/
+theorem _root_.Bpp.Graph.G.orientRun_of_all {P : G → Prop} {g : G} (h : (G.orientate g).All P) : P g.orientRun.g := by
+  unfold G.orientate at h
+  simp only at h
+  split at h <;> exact h
+
+theorem inv_orient (d : D) (h : Inv d) : Inv d.orient.2 := by
+  rcases orient_cases d with ho | ho <;> rw [ho]
+  · have h1 : GInv d.g.orientRun.g :=
+      G.orientRun_of_all (ginv_of h.1 (G.orientate_consistent h.1.1) (G.dir_orientate h.1.2))
+    exact ⟨⟨consistent_setPending h1.1 _, h1.2⟩, cacheSound_off _⟩
+  · have he : EqP d.g { d.g with pending := [] } := EqP.setPending _ _
+    exact ⟨⟨consistent_setPending h.1.1 _, h.1.2⟩,
+      fun hv => by rw [isDA_eqP he]; exact h.2.1 hv, fun hv => by rw [nbFatherless_eqP he]; exact h.2.2 hv⟩
+
+theorem inv_propagate : ∀ (fuel : Nat) (d : D) (n : Nat) (r : GOut Unit × D), Inv d → propagate fuel d n = .ok r → Inv r.2 :=
+  propagate_ind Inv (fun d a b h => inv_switch d h a b)
+
+theorem inv_rootAt (d : D) (h : Inv d) (n : Nat) (r : GOut Unit × D) (hr : d.rootAt n = .ok r) : Inv r.2 :=
+  rootAt_ind Inv (fun d a b h => inv_switch d h a b) inv_isRooted inv_isValid inv_orient
+    (fun d n h => inv_setRoot d h n) d n r h hr
+
 theorem inv_step (d : D) (h : Inv d) (op : DOp) : Inv (d.step op) := by
   cases op with
   | createNode => exact inv_createNode d h
@@ -726,11 +1019,146 @@ theorem inv_step (d : D) (h : Inv d) (op : DOp) : Inv (d.step op) := by
   | isValid => exact inv_isValid d h
   | isRooted => exact inv_isRooted d h
   | getBelow e n => simp only [step, getBelow_snd]; exact inv_isValid d h
+  | rootAt n =>
+    simp only [step]
+    split
+    · rename_i r hr; exact inv_rootAt d h n r hr
+    · exact h
 
 theorem inv_run (ops : List DOp) : ∀ d, Inv d → Inv (d.run ops) := by
   induction ops with
   | nil => intro d h; exact h
   | cons op r ih => intro d h; exact ih _ (inv_step d h op)
+
+/-! ### the notification queue of the container is always empty -/
+
+theorem lift_pending {α : Type} (d : D) (r : GOut α) : (d.lift r).2.g.pending = [] := by
+  cases r <;> rfl
+
+theorem touch_g (r : GOut Unit × D) : (touch r).2.g = r.2.g := by
+  unfold touch
+  split <;> rfl
+
+theorem pending_removeFather (d : D) (h : d.g.pending = []) (n f : Nat) : (d.removeFather n f).2.g.pending = [] := by
+  unfold removeFather
+  split
+  · exact h
+  · exact lift_pending _ _
+
+theorem pending_rootAt (d : D) (h : d.g.pending = []) (n : Nat) (r : GOut Unit × D) (hr : d.rootAt n = .ok r) :
+    r.2.g.pending = [] :=
+  rootAt_ind (fun d => d.g.pending = []) (fun d a b _ => lift_pending _ _)
+    (fun d h => by rw [isRooted_g]; exact h) (fun d h => by rw [isValid_g]; exact h)
+    (fun d _ => orient_pending d) (fun d n _ => lift_pending _ _) d n r h hr
+
+theorem pending_step (d : D) (h : d.g.pending = []) (op : DOp) : (d.step op).g.pending = [] := by
+  cases op with
+  | createNode => exact lift_pending _ _
+  | link a b => exact lift_pending _ _
+  | linkE a b e => exact lift_pending _ _
+  | unlink a b => exact lift_pending _ _
+  | deleteNode n => exact lift_pending _ _
+  | setRoot n => exact lift_pending _ _
+  | addSon n s => simp only [step, addSon, touch_g]; exact lift_pending _ _
+  | addSonE n s e => simp only [step, addSonE, touch_g]; exact lift_pending _ _
+  | addFather n f => simp only [step, addFather, touch_g]; exact lift_pending _ _
+  | addFatherE n f e => simp only [step, addFatherE, touch_g]; exact lift_pending _ _
+  | removeSon n s => exact lift_pending _ _
+  | removeFather n f => exact pending_removeFather d h n f
+  | removeSons n =>
+    simp only [step, removeSons]
+    split
+    · exact h
+    · rename_i sons _
+      have := foldl_ind (fun acc : GOut Unit × D => acc.2.g.pending = [])
+        (fun acc s => andThen acc (fun _ d' => d'.removeSon n s))
+        (fun acc s hacc => andThen_ind (fun d => d.g.pending = []) acc _ hacc (fun _ d' _ => lift_pending d' (d'.g.unlink n s)))
+        sons (.ok () d.g, d) h
+      split <;> exact this
+  | removeFathers n =>
+    simp only [step, removeFathers]
+    split
+    · exact h
+    · rename_i fs _
+      have := foldl_ind (fun acc : GOut Unit × D => acc.2.g.pending = [])
+        (fun acc f => andThen acc (fun _ d' => d'.removeFather n f))
+        (fun acc f hacc => andThen_ind (fun d => d.g.pending = []) acc _ hacc (fun _ d' h' => pending_removeFather d' h' n f))
+        fs (.ok () d.g, d) h
+      split <;> exact this
+  | isValid => simp only [step, isValid_g]; exact h
+  | isRooted => simp only [step, isRooted_g]; exact h
+  | getBelow e n => simp only [step, getBelow_snd, isValid_g]; exact h
+  | rootAt n =>
+    simp only [step]
+    split
+    · rename_i r hr; exact pending_rootAt d h n r hr
+    · exact h
+
+/-- no notification is ever left pending in a reachable container -/
+theorem pending_run (ops : List DOp) : ∀ d : D, d.g.pending = [] → (d.run ops).g.pending = [] := by
+  induction ops with
+  | nil => intro d h; exact h
+  | cons op r ih => intro d h; exact ih _ (pending_step d h op)
+
+/-! ### `rootAt` keeps the nodes and the undirected edges -/
+
+/-- consistent, directed, quiet, and with the nodes, undirected edges and root of `g0` -/
+def ShapeInv (g0 : G) (d : D) : Prop := GInv d.g ∧ d.g.pending = [] ∧ SwitchKept g0 d.g
+
+theorem shape_lift {α : Type} {g0 : G} (d : D) (r : GOut α) (h : r.All (fun g' => GInv g' ∧ SwitchKept g0 g')) :
+    ShapeInv g0 (d.lift r).2 := by
+  cases r with
+  | ok a g' => exact ⟨⟨consistent_setPending h.1.1 _, h.1.2⟩, rfl, h.2.setPending _⟩
+  | exc g' => exact ⟨⟨consistent_setPending h.1.1 _, h.1.2⟩, rfl, h.2.setPending _⟩
+
+theorem shape_switch {g0 : G} (d : D) (a b : Nat) (h : ShapeInv g0 d) : ShapeInv g0 (d.lift (d.g.switchNodes a b)).2 := by
+  apply shape_lift
+  have h1 := ginv_of h.1 (G.switchNodes_consistent h.1.1 a b) (G.dir_switchNodes _ a b)
+  have h2 := G.switchNodes_kept h.1.1 a b
+  rcases hr : d.g.switchNodes a b with ⟨u, g'⟩ | g' <;> rw [hr] at h1 h2
+  · exact ⟨h1, h.2.2.trans h2⟩
+  · exact ⟨h1, h.2.2.trans h2⟩
+
+theorem shape_orient {g0 : G} (d : D) (h : ShapeInv g0 d) : ShapeInv g0 d.orient.2 := by
+  rcases orient_cases d with ho | ho <;> rw [ho]
+  · have h1 : GInv d.g.orientRun.g :=
+      G.orientRun_of_all (ginv_of h.1 (G.orientate_consistent h.1.1) (G.dir_orientate h.1.2))
+    have h2 := G.orientRun_of_all (G.orientate_kept h.1.1 h.1.2)
+    exact ⟨⟨consistent_setPending h1.1 _, h1.2⟩, rfl, (h.2.2.trans h2.2).setPending _⟩
+  · exact ⟨⟨consistent_setPending h.1.1 _, h.1.2⟩, rfl, h.2.2.setPending _⟩
+
+theorem setPending_self {g : G} (h : g.pending = []) : ({ g with pending := [] } : G) = g := by
+  cases g; simp only at h; subst h; rfl
+
+/-- **`rootAt` and the shape of the graph**: on a consistent directed graph (whatever the cached flags say),
+succeeding or raising half way, `rootAt` keeps the nodes and the undirected edges with their ids; unless
+`setRoot` raised (absent node: nothing changed) the root is the node asked for -/
+theorem rootAt_shape (d : D) (h : GInv d.g) (hp : d.g.pending = []) (n : Nat) (r : GOut Unit × D)
+    (hr : d.rootAt n = .ok r) :
+    SameShape d.g r.2.g ∧ (d.g.hasNode n = true → r.2.g.root = n) ∧
+      (d.g.hasNode n = false → r.2.g = d.g ∧ ∃ g', r.1 = .exc g') := by
+  rw [rootAt_eq] at hr
+  cases hn : d.g.hasNode n
+  · have hs : d.setRoot n = (.exc d.g, d) := by
+      simp only [setRoot, G.setRoot, hn, Bool.false_eq_true, if_false, lift, if_true, setPending_self hp]
+    rw [hs] at hr
+    simp only at hr
+    injection hr with hr
+    subst hr
+    exact ⟨⟨rfl, rfl, hp⟩, fun h' => (by cases h'), fun _ => ⟨rfl, _, rfl⟩⟩
+  · have hs : d.setRoot n = (.ok () { d.g with root := n, pending := [] },
+        { g := { d.g with root := n, pending := [] }, valid := false, rooted := false }) := by
+      simp only [setRoot, G.setRoot, hn, if_true, lift]
+    rw [hs] at hr
+    simp only at hr
+    have h0 : ShapeInv { d.g with root := n, pending := [] }
+        { g := { d.g with root := n, pending := [] }, valid := false, rooted := false } :=
+      ⟨⟨consistent_congr (g := d.g) rfl rfl rfl rfl rfl h.1, h.2⟩, rfl, SwitchKept.refl _⟩
+    have h1 : ShapeInv { d.g with root := n, pending := [] } r.2 :=
+      rootAtRest_ind (ShapeInv { d.g with root := n, pending := [] }) (fun d a b h => shape_switch d a b h)
+        (fun d h => by unfold ShapeInv; rw [isRooted_g]; exact h) (fun d h => by unfold ShapeInv; rw [isValid_g]; exact h)
+        shape_orient _ n r h0 hr
+    exact ⟨⟨h1.2.2.keys, h1.2.2.uedges, h1.2.1⟩, fun _ => h1.2.2.root, fun h' => (by cases h')⟩
 
 end D
 
